@@ -39,6 +39,7 @@ def boot():
     from . import catalogue  # noqa: F401
     BOOT['mods'] = mods
     BOOT['import_digest'] = module_digest(mods)
+    BOOT['import_names'] = module_digest(mods, per_name=True)
     BOOT['pm_dir'] = pm
     tables = {}
     import re
@@ -169,7 +170,7 @@ def exec_S(source):
             if int(before // per) != int(after // per) or int((before + off) // per) != int((after + off) // per):
                 crossings[nm] += 1
     C.on_read = on_read
-    sim = Sim(source, b['import_digest'])
+    sim = Sim(source, b['import_digest'], b['import_names'])
     # engine.begin uses pickle.dumps for clones: route through the table-aware pickler
     _engine.CLONE = clone_dumps
     t0 = C.now
